@@ -173,3 +173,16 @@ Proof.
   destruct (autoclear_cases post (o1 + 1) None (a + zlen line + 1) k) as [o2 ->].
   exists o2, None. reflexivity.
 Qed.
+
+(* request_z is request *)
+Lemma has_n_zlen {A} (l : list A) n : has_n l (Z.to_nat n) = (n <=? zlen l).
+Proof.
+  unfold zlen. destruct (Z.leb_spec n (Z.of_nat (length l))).
+  - apply has_n_le. lia.
+  - apply has_n_gt. lia.
+Qed.
+Lemma request_z_eq n s : request_z n s = request n s.
+Proof.
+  unfold request_z, request. rewrite has_n_zlen.
+  destruct (Z.ltb_spec (zlen (rest s)) n); destruct (Z.leb_spec n (zlen (rest s))); try lia; reflexivity.
+Qed.
